@@ -2453,20 +2453,23 @@ def c14(tier, replay=None):
     report = Report('C14', tier)
     # the design: with sorted set iteration the lowering is a function; without it
     # the multi-entry sets are exactly where two lowerings can differ
-    for sorted_iter, isolated, perbatch, expect in (('TRUE', 'TRUE', 'TRUE', True), ('FALSE', 'TRUE', 'TRUE', False),
-                                                    ('TRUE', 'FALSE', 'TRUE', False), ('TRUE', 'TRUE', 'FALSE', False)):
-        cfg = write_cfg('Preview_%s_%s_%s.cfg' % (sorted_iter, isolated, perbatch),
+    for sorted_iter, isolated, perbatch, lookup, expect in (
+            ('TRUE', 'TRUE', 'TRUE', 'TRUE', True), ('FALSE', 'TRUE', 'TRUE', 'TRUE', False),
+            ('TRUE', 'FALSE', 'TRUE', 'TRUE', False), ('TRUE', 'TRUE', 'FALSE', 'TRUE', False),
+            ('TRUE', 'TRUE', 'TRUE', 'FALSE', False)):
+        cfg = write_cfg('Preview_%s_%s_%s_%s.cfg' % (sorted_iter, isolated, perbatch, lookup),
                         'SPECIFICATION Spec\nCONSTANTS\n  SortedIteration = %s\n  CloneIsolated = %s\n'
-                        '  PreviewPerBatch = %s\n'
+                        '  PreviewPerBatch = %s\n  OrderedLookup = %s\n'
                         'INVARIANT PreviewEqualsExecution\nINVARIANT LoweringDeterministic\n'
-                        'INVARIANT NondeterminismOnlyFromSets\n' % (sorted_iter, isolated, perbatch))
+                        'INVARIANT NondeterminismOnlyFromSets\n' % (sorted_iter, isolated, perbatch, lookup))
         res = run_tlc('Preview', cfg, workers=4, timeout=300, allow_violation=not expect)
         if expect:
             require_ok(res, 'Preview (as repaired)')
         elif not res.invariant_violated:
-            machinery_failure('Preview.tla without sorted iteration / clone isolation / per-batch preview should fail')
-        report.add_tlc('Preview SortedIteration=%s CloneIsolated=%s PreviewPerBatch=%s'
-                       % (sorted_iter, isolated, perbatch), res.stats())
+            machinery_failure('Preview.tla without sorted iteration / clone isolation / per-batch preview / '
+                              'ordered index lookup should fail')
+        report.add_tlc('Preview SortedIteration=%s CloneIsolated=%s PreviewPerBatch=%s OrderedLookup=%s'
+                       % (sorted_iter, isolated, perbatch, lookup), res.stats())
     seeds = ['0', '1', '2', '3'] if tier == 'quick' else ['0', '1', '2', '3', '4', '5', '7', '11']
     modes = ('fresh',) if tier == 'quick' else ('fresh', 'stepwise')
     scs = P.scenarios(tier)
@@ -2548,7 +2551,7 @@ def c14(tier, replay=None):
         'by TLC with sorted iteration (holds) and without (must fail: the hazard is real). %d pending '
         'upgrades (set family: unique_together / index_together changes with 2-4 entries, the '
         'HasMultiEntrySet hazard, with and without field additions; chain family: two apps with model '
-        'groups; rename-then-index family; split family: an app\'s pending evolutions spread over several '
+        'groups; rename-then-index family; duplicate-index family (db_index next to an index_together / Meta.indexes entry over the same column, dropped by column lookup: the `lookup` steps); split family: an app\'s pending evolutions spread over several '
         'batches around another app\'s migration) x start modes %s x PYTHONHASHSEED %s: `evolve --sql`, `evolve --execute`, '
         '`evolve --hint` and `evolve --hint --sql` each in a fresh interpreter on copies of the same '
         'database; statements executed inside applying/applied_evolution are rendered with the documented '
@@ -2749,7 +2752,7 @@ PROPERTY OtherDatabaseUntouched
         n_both = sum(1 for d in r['route'].values() if d == 'both')
         kinds = tuple(sorted(set(mu['k'] for mu in r['evo'])))
         on_both = any(r['route'][mu['m'][0]] == 'both' for mu in r['evo'])
-        strata.setdefault((n_other, n_both, on_both, kinds, len(r['evo'])), []).append(r)
+        strata.setdefault((n_other, n_both, on_both, kinds, len(r['evo']), bool(r.get('catchAll'))), []).append(r)
     for k in strata:
         rng.shuffle(strata[k])
     limit = 90 if tier == 'quick' else 1200
@@ -2764,7 +2767,7 @@ PROPERTY OtherDatabaseUntouched
     for rec, obs in zip(chosen, observations):
         report.coverage['evaluations'] += 1
         evo = ['%s(%s)' % (mu['k'], mu['m']) for mu in rec['evo']]
-        where = {'route': rec['route'], 'evolution': evo, 'order': rec['order']}
+        where = {'route': rec['route'], 'evolution': evo, 'order': rec['order'], 'catch_all_router': bool(rec.get('catchAll'))}
         if obs['errors']:
             report.notes.append('setup failed: %r' % (obs['errors'][:1],))
             continue
@@ -2794,12 +2797,18 @@ PROPERTY OtherDatabaseUntouched
                 report.fail(dict(fp, **{'class': 'signature-not-what-the-router-allows'}), detail)
             if st['other_changed']:
                 report.fail(dict(fp, **{'class': 'other-database-modified'}), detail)
+            mine = [mu for mu in rec['evo'] if rec['route'][mu['m'][0]] in (d, 'both')]
+            if mine and ('shop', 'e1') not in [tuple(x)[:2] for x in (st['recorded'] or [])]:
+                # what was executed on d is on record on d (whatever the router says about
+                # Django Evolution's own models)
+                report.fail(dict(fp, **{'class': 'executed-evolution-not-recorded-on-its-database',
+                                        'catch_all_router': bool(rec.get('catchAll'))}), detail)
         report.sample({'route': rec['route'], 'evolution': evo, 'order': rec['order'],
                        'outcomes': [s['outcome'] for s in obs['steps']]})
     report.coverage['distinct_nontrivial'] = len(nontrivial)
     report.coverage['exhaustive'] = len(chosen) == len(recs)
     report.coverage['rule'] = (
-        'Route.tla: one app with three models, every assignment of each model to one of two databases or to both (27) x either order of '
+        'Route.tla: one app with three models, every assignment of each model to one of two databases or to both (27) x a router that answers None / "default" for models it has no rule for (Django Evolution\'s own among them) x either order of '
         'evolving them x every valid evolution of <= %d mutations (AddField, ChangeField, RenameModel to a new table, '
         'DeleteModel, incl. mutations on the renamed model); TLC checks OnlyRoutedModels, OtherDatabaseUntouched, '
         'Converged. %d of %d scenarios were replayed on a real two-database project with a router, each database '
